@@ -356,6 +356,32 @@ class FD:
         return Opaque('fstring', truth=True if any(isinstance(v, ast.Constant) and v.value
                                                    for v in e.values) else None)
 
+    def iterate(self, it, what='iteration'):
+        """Items of an iterable value: concrete containers directly; model objects through their class's own
+        __iter__ or (legacy protocol) __getitem__ with 0, 1, 2, ... until IndexError."""
+        if isinstance(it, Obj):
+            m = it.attrs.get('method:__iter__') or self.class_method(it, '__iter__')
+            if m is not None:
+                return self.iterate(m(), what)
+            g = it.attrs.get('method:__getitem__') or self.class_method(it, '__getitem__')
+            if g is not None and '__classdef__' in it.attrs:
+                out = []
+                for i in range(10000):
+                    try:
+                        out.append(g(i))
+                    except Raised as r:
+                        if r.kind == 'IndexError':
+                            return out
+                        raise
+                raise Inconclusive('fdeval: unbounded __getitem__ iteration')
+            raise Inconclusive('fdeval: %s over a non-concrete iterable' % what)
+        if it is UNKNOWN or isinstance(it, Opaque) or it is ERR:
+            raise Inconclusive('fdeval: %s over a non-concrete iterable' % what)
+        try:
+            return list(it)
+        except TypeError as ex:
+            raise Raised('TypeError', str(ex))
+
     def _comprehend(self, generators, env, emit):
         """Run the generator clauses (possibly several) and call emit(inner_env) for every binding."""
         if any(g.is_async for g in generators):
@@ -366,13 +392,7 @@ class FD:
                 emit(inner)
                 return
             g = generators[i]
-            it = self.eval(g.iter, inner)
-            if it is UNKNOWN or isinstance(it, (Opaque, Obj)) or it is ERR:
-                raise Inconclusive('fdeval: comprehension over a non-concrete iterable')
-            try:
-                items = list(it)
-            except TypeError as ex:
-                raise Raised('TypeError', str(ex))
+            items = self.iterate(self.eval(g.iter, inner), 'comprehension')
             for item in items:
                 self.assign(g.target, item, inner)
                 if all(truth(self.eval(c, inner)) for c in g.ifs):
@@ -532,8 +552,23 @@ class FD:
                 if isinstance(right, str):
                     raise Raised('TypeError', "'in <string>' requires string as left operand")
                 found = False
-            elif isinstance(left, (Opaque, Obj)):
+            elif isinstance(right, Obj):
+                cm = right.attrs.get('method:__contains__') or self.class_method(right, '__contains__')
+                if cm is not None:
+                    found = truth(cm(left))
+                else:
+                    found = any(x is left or (not isinstance(x, (Obj, Opaque)) and not isinstance(left, (Obj, Opaque))
+                                              and x == left) for x in self.iterate(right, 'membership test'))
+            elif isinstance(left, Opaque):
                 return UNKNOWN
+            elif isinstance(left, Obj):
+                # a model object without a modelled __eq__: membership in a concrete container is by identity
+                if isinstance(right, dict):
+                    found = any(k is left for k in right)
+                elif isinstance(right, (list, tuple, set, frozenset)):
+                    found = any(x is left for x in right)
+                else:
+                    return UNKNOWN
             else:
                 try:
                     found = left in right
@@ -881,6 +916,22 @@ class FD:
                 raise Raised('KeyError', 'set.%s' % attr)
             except TypeError as ex:
                 raise Raised('TypeError', str(ex))
+        if isinstance(recv, (dict, list, tuple, str, set, frozenset)) and attr in ('__getitem__', '__len__',
+                                                                                  '__contains__', '__iter__'):
+            try:
+                if attr == '__getitem__':
+                    return recv[args[0]]
+                if attr == '__len__':
+                    return len(recv)
+                if attr == '__contains__':
+                    return args[0] in recv
+                return list(recv)
+            except IndexError:
+                raise Raised('IndexError', 'index out of range')
+            except KeyError:
+                raise Raised('KeyError', repr(args[0]))
+            except TypeError as ex:
+                raise Raised('TypeError', str(ex))
         if isinstance(recv, (dict, list, set)) and attr == 'copy' and not args:
             return recv.copy()
         if isinstance(recv, dict) and attr in ('items', 'keys', 'values'):
@@ -965,14 +1016,8 @@ class FD:
             self.block(st.body if t else st.orelse, env)
             return
         if isinstance(st, ast.For):
-            it = self.eval(st.iter, env)
-            if it is UNKNOWN or isinstance(it, (Opaque, Obj)) or it is ERR:
-                raise Inconclusive('fdeval: loop over a non-concrete iterable')
+            items = self.iterate(self.eval(st.iter, env), 'loop')
             broke = False
-            try:
-                items = list(it)
-            except TypeError as ex:
-                raise Raised('TypeError', str(ex))
             for item in items:
                 self.assign(st.target, item, env)
                 try:
@@ -1235,6 +1280,8 @@ def _b_len(x):
         return UNKNOWN
     if x is ERR:
         raise Raised('TypeError', 'len() of exception')
+    if isinstance(x, Obj) and 'method:__len__' in x.attrs:
+        return x.attrs['method:__len__']()
     if isinstance(x, (Opaque, Obj)):
         return UNKNOWN
     try:
